@@ -421,10 +421,21 @@ struct Tracked
 const char *Tracked::err = nullptr;
 long Tracked::ctors = 0, Tracked::dtors = 0;
 
-template <size_t N> struct ObjPool
+// over-aligned element types: "aligned for its use" must hold for them as well
+struct alignas(32) Tracked32 : Tracked
 {
-    using P = igris::static_object_pool<Tracked, N>;
-    size_t cap = N, elemsz = sizeof(typename P::storage_type), align = alignof(Tracked);
+    using Tracked::Tracked;
+    char pad32[8];
+};
+struct alignas(64) Tracked64 : Tracked
+{
+    using Tracked::Tracked;
+};
+
+template <class E, size_t N> struct ObjPool
+{
+    using P = igris::static_object_pool<E, N>;
+    size_t cap = N, elemsz = sizeof(typename P::storage_type), align = alignof(E);
     uint8_t *zone;
     bool final_phase = false;
     P *pl; // on the heap: ASan red zones around the storage
@@ -433,20 +444,20 @@ template <size_t N> struct ObjPool
     ~ObjPool() { delete pl; }
     void *alloc(uint8_t f)
     {
-        Tracked *t = pl->create((uint64_t)f);
+        E *t = pl->create((uint64_t)f);
         if (t)
             made++;
         return t;
     }
     void release(void *p)
     {
-        pl->destroy((Tracked *)p);
+        pl->destroy((E *)p);
         gone++;
     }
     void stamp(void *, uint8_t) {} // the object constructed in the cell is the content
     long verify(void *p, uint8_t f)
     {
-        const Tracked *t = (const Tracked *)p;
+        const Tracked *t = (const E *)p;
         if (!Tracked::live().count(t))
             return 0;
         return (t->id == f && t->intact()) ? -1 : 0;
@@ -473,11 +484,11 @@ template <size_t N> struct ObjPool
     }
     void extra_op(Case &c) { c.log("nop "); }
 };
-template <size_t N> static void object_pool_n(Src &s, Case &c)
+template <class E, size_t N> static void object_pool_n(Src &s, Case &c)
 {
     Tracked::reset();
     {
-        ObjPool<N> a;
+        ObjPool<E, N> a;
         pool_history(s, c, a, "object_pool");
         VP_CHECK(Tracked::live().empty() && Tracked::ctors == Tracked::dtors, "object_pool_lifetimes",
                  "after destroying everything: %zu alive, %ld constructed, %ld destroyed", Tracked::live().size(),
@@ -486,17 +497,26 @@ template <size_t N> static void object_pool_n(Src &s, Case &c)
 }
 static void object_pool_target(Src &s, Case &c)
 {
-    switch (s.below(3))
+    switch (s.below(6))
     {
     case 0:
         c.label("N=4");
-        return object_pool_n<4>(s, c);
+        return object_pool_n<Tracked, 4>(s, c);
     case 1:
         c.label("N=1");
-        return object_pool_n<1>(s, c);
-    default:
+        return object_pool_n<Tracked, 1>(s, c);
+    case 2:
         c.label("N=16");
-        return object_pool_n<16>(s, c);
+        return object_pool_n<Tracked, 16>(s, c);
+    case 3:
+        c.label("alignas32,N=4");
+        return object_pool_n<Tracked32, 4>(s, c);
+    case 4:
+        c.label("alignas64,N=3");
+        return object_pool_n<Tracked64, 3>(s, c);
+    default:
+        c.label("alignas32,N=1");
+        return object_pool_n<Tracked32, 1>(s, c);
     }
 }
 VP_TARGET("object_pool", object_pool_target,
